@@ -167,7 +167,7 @@ func (r *Route) Headers(pairs ...string) *Route {
 
 		// Delete static route from fast paths since header matches are dynamic.
 		if leaf.Static() {
-			delete(r.router.staticRoutes[m], leaf.Route())
+			delete(r.router.staticRoutes[m], staticRoutePath(leaf))
 		}
 	}
 	return r
@@ -185,6 +185,13 @@ func (r *Route) Name(name string) {
 		r.router.namedRoutes[name] = leaf
 		break
 	}
+}
+
+// staticRoutePath returns the request path that is matched by the leaf of a
+// static route, which differs from the route itself when the last segment is
+// optional, e.g. the leaf of "/users/?settings" matches "/users/settings".
+func staticRoutePath(leaf route.Leaf) string {
+	return leaf.URLPath(nil, true)
 }
 
 func (r *router) addRoute(method, routePath string, handler route.Handler) *Route {
@@ -218,7 +225,7 @@ func (r *router) addRoute(method, routePath string, handler route.Handler) *Rout
 		}
 
 		if leaf.Static() {
-			r.staticRoutes[m][leaf.Route()] = leaf
+			r.staticRoutes[m][staticRoutePath(leaf)] = leaf
 		}
 		leaves[m] = leaf
 	}
